@@ -6,7 +6,9 @@
 # sub-options, unedited, after 1..6 random layout-preserving edits, and after layout-breaking edits.
 # Oracles (specification side): the extracted layout recogniser (coq/File/QdfLayout.v) on real --qdf output and
 # on every edited file; the extracted strict reader (coq/File/ReadStrict.v) on what the real fix-qdf wrote,
-# compared with the document the edit script denotes; cmp for identity and idempotence.
+# compared with the document the edit script denotes; cmp for identity and idempotence; the dictionaries of the object
+# streams (fix-qdf rebuilds them; /Extends is the one key it carries over) are compared key by key before / after, on
+# preserved object streams linked by /Extends in every acyclic pattern.
 import base64, itertools, os, re, resource, subprocess, zlib
 import common, filecheck, pdfgen
 from pdfgen import Name, Ref, Str, Real, Stream, D, N
@@ -16,6 +18,7 @@ ASSUMPTIONS = [
     "the strict reader (C02's specification) judges the repaired file; the document an edit script denotes is computed by the generator on the object model (pdfgen), independently of fix-qdf and of its model",
     "QDF files above 150 kB are not used (the extracted list-based reader and model are slow on them)",
     "edit scripts: byte insertions/deletions inside stream data, key insertion/change/removal in top-level dictionaries (also of object-stream members), comments/blank lines, stale numbers in the parts fix-qdf regenerates, appended objects; renumbering edits (deleting objects) are outside the manual's contract and not generated",
+    "object-stream dictionaries: fix-qdf recomputes /Length /N /First; every other key (the writer only ever emits /Extends) must survive the repair unchanged and no key may appear; /Extends edits keep the chains acyclic (ISO 32000 7.5.7); known finding C17-F5 (a key added by hand behind the /Type /ObjStm line is dropped) is re-observed by an aimed edit on every file with several object streams and is accepted only when exactly the hand-added keys are missing",
     "known finding C17-F1 (an `endstream` line inside stream data) is re-observed on a dedicated input; the inputs of the repaired C17-F2 (marker text inside a string or a longer name, fix e1b84020) stay in the run as regression inputs; F3 (--newline-before-endstream with object streams) and F4 (--preserve-unreferenced keeps original object streams) when the option sample contains them; files of these classes are not used as bases for edit scripts",
 ]
 
@@ -1088,7 +1091,10 @@ def run(chk):
                        "idempotence of the real fix-qdf, model = binary byte for byte; then edit scripts of 1..6 layout-preserving edits (stream bytes, "
                        "dictionary keys, comments, stale numbers, appended objects): edited file passes the layout recogniser, model = binary, the repaired "
                        "file is strictly valid and denotes the edited document, repair is idempotent; plus layout-breaking edits (fatal paths): model = binary; plus preserved object streams with 255..258 (thorough: 65535..65537) members and files whose "
-                       "xref stream sits at offset 65535/65536 (thorough: 2^24-1..2^24+1), unedited and shifted by 1 / 300 bytes: model = binary, strict reader, qpdf --show-xref before = after. "
+                       "xref stream sits at offset 65535/65536 (thorough: 2^24-1..2^24+1), unedited and shifted by 1 / 300 bytes: model = binary, strict reader, qpdf --show-xref before = after; "
+                       "plus inputs with two and three object streams linked by /Extends in every acyclic pattern (none, first extends second, second extends first, chains in every order; thorough: "
+                       "a sample over four streams) written with --object-streams=preserve: same oracles, the object-stream dictionaries before and after fix-qdf are compared key by key, and aimed edit "
+                       "scripts (an edit inside each object stream, /Extends line removed / retargeted / added, a key added by hand to an object-stream dictionary). "
                        "non-trivial = distinct (input, options, edit script) whose repair completed")
     # ---- inputs
     inputs = []
